@@ -404,8 +404,13 @@ class DnsUpstream(sansio.Peer):
     """Reactive upstream: ``responder(k, message_bytes, peer)`` is called for the k-th complete message the proxy wrote and
     returns a list of actions: bytes (a DNS message to send, framed here), ("raw", bytes) (sent as is), or "close"."""
 
-    def __init__(self, transport, responder, rng=None, seg="whole"):
+    def __init__(self, transport, responder, rng=None, seg="whole", coalesce=False):
+        """coalesce (TCP only): everything produced while handling one write of the proxy is sent as ONE stream chunk that is
+        then cut by ``seg`` ('split' = one random split point), so several replies can share a segment; ("raw", ...) actions
+        always travel in segments of their own."""
         super().__init__()
+        self.coalesce = coalesce and transport == "tcp"
+        self._pending = bytearray()
         self.transport = transport
         self.responder = responder
         self.rng = rng
@@ -434,21 +439,38 @@ class DnsUpstream(sansio.Peer):
                 if self.closed:
                     break
                 if act == "close":
+                    self.flush()
                     self.close()
                     self.closed = True
                 elif isinstance(act, tuple):
-                    self.emit(act[1])
+                    self.emit(act[1], raw=True)
                 else:
                     self.sent.append(act)
                     self.emit(frame(act, self.transport))
+        self.flush()
 
-    def emit(self, wire: bytes):
+    def emit(self, wire: bytes, raw=False):
         self.sent_stream += wire
         if self.transport == "udp":
             self.send(wire)
+        elif self.coalesce and not raw:
+            self._pending += wire
         else:
-            for s in cut(wire, self.rng, self.seg):
-                self.send(s)
+            self.flush()
+            self._cut_and_send(wire)
+
+    def _cut_and_send(self, wire: bytes):
+        mode = self.seg
+        if mode == "split":
+            mode = self.rng.randrange(1, max(2, len(wire)))
+        for s in cut(wire, self.rng, mode):
+            self.send(s)
+
+    def flush(self):
+        if self._pending:
+            wire = bytes(self._pending)
+            self._pending.clear()
+            self._cut_and_send(wire)
 
 
 def top_factory(ctx):
